@@ -418,6 +418,161 @@ def unit_cell_sides(degenerate):
                 config={'degenerate_axis': degenerate})
 
 
+
+# --------------------------------------------------------------------------
+# sub-partition construction: insert / append of IntervalProd, RectGrid and RectPartition (object arrays: concrete numbers of axes,
+# symbolic end points; coordinate vectors known by identity).  The constructors are cuts that store their arguments the way the real
+# __init__ does (the claim is WHICH end points / vectors the new object is built from, and that set and grid stay aligned axis by axis).
+
+DOM = 'odl.set.domain:'
+
+
+def _subpart_world(I, st):
+    import numpy as np
+    from pyvc import objnp
+    st.object_arrays = True
+    st.cuts.update(utilcuts.cuts())
+
+    def oarr(vals):
+        a = np.empty(len(vals), dtype=object)
+        for i, v in enumerate(vals):
+            a[i] = v
+        return objnp.ONd(a)
+
+    def as_vals(v):
+        if isinstance(v, objnp.ONd):
+            return list(v.a.reshape(-1))
+        if isinstance(v, (list, tuple)):
+            return list(v)
+        raise Unsupported('end points %r' % (v,))
+
+    def ip_init(I_, fr_, self, min_pt, max_pt):
+        self.fields['_IntervalProd__min_pt'] = oarr(as_vals(min_pt))
+        self.fields['_IntervalProd__max_pt'] = oarr(as_vals(max_pt))
+        return None
+
+    def grid_init(I_, fr_, self, *vecs):
+        self.fields['_RectGrid__coord_vectors'] = tuple(vecs)
+        return None
+
+    def part_init(I_, fr_, self, intv_prod, grid):
+        self.fields['_RectPartition__set'] = intv_prod
+        self.fields['_RectPartition__grid'] = grid
+        return None
+    st.cuts[DOM + 'IntervalProd.__init__'] = ip_init
+    st.cuts[GR + 'RectGrid.__init__'] = grid_init
+    st.cuts[PT + 'RectPartition.__init__'] = part_init
+
+    class Vec(object):
+        """a coordinate vector known by identity"""
+
+        def __init__(self, name):
+            self.name = name
+
+        def __repr__(self):
+            return '<vec %s>' % self.name
+
+    def mk_intv(name, nd):
+        o = ip.Obj(I.get_class(DOM + 'IntervalProd'))
+        lo = [S(z3.Real('%s.min%d' % (name, a))) for a in range(nd)]
+        hi = [S(z3.Real('%s.max%d' % (name, a))) for a in range(nd)]
+        ip_init(I, None, o, lo, hi)
+        return o, lo, hi
+
+    def mk_grid(name, nd):
+        o = ip.Obj(I.get_class(GR + 'RectGrid'))
+        vecs = [Vec('%s.c%d' % (name, a)) for a in range(nd)]
+        grid_init(I, None, o, *vecs)
+        return o, vecs
+
+    def mk_part(name, nd):
+        iv, lo, hi = mk_intv(name, nd)
+        g, vecs = mk_grid(name, nd)
+        o = ip.Obj(I.get_class(PT + 'RectPartition'))
+        part_init(I, None, o, iv, g)
+        return o, lo, hi, vecs
+    return mk_intv, mk_grid, mk_part, as_vals
+
+
+def unit_subpart_insert(kind, nself, ins, index, meth='insert'):
+    """<kind>.insert(index, *others) / append(*others): the result has the axes of self before `index`, then ALL axes of every inserted object in
+    the order given, then the remaining axes of self; for partitions the end points and the coordinate vector of every result axis come from the same
+    source axis (set and grid stay aligned)."""
+    def run(ctx):
+        I = ctx.I
+
+        def path(st):
+            mk_intv, mk_grid, mk_part, as_vals = _subpart_world(I, st)
+            fr = ip.Frame(st)
+            mk = {'IntervalProd': mk_intv, 'RectGrid': mk_grid, 'RectPartition': mk_part}[kind]
+            me = mk('p', nself)
+            others = [mk('q%d' % i, d) for i, d in enumerate(ins)]
+            try:
+                if meth == 'insert':
+                    res = I.call(I._getattr(me[0], 'insert', fr), [index] + [o[0] for o in others], {}, fr)
+                else:
+                    res = I.call(I._getattr(me[0], 'append', fr), [o[0] for o in others], {}, fr)
+            except ip.PyRaise as e:
+                return ('raise', e.exc)
+            return ('ok', (me, others, res, as_vals))
+        info = {'class': kind, 'ndim': nself, 'inserted_ndims': list(ins), 'index': index, 'method': meth}
+        rp = dict(info, kind='subpart_insert')
+        pos = nself if meth == 'append' else (index + nself if index < 0 else index)
+        for st, (status, r) in ctx.explore(path):
+            if status == 'raise':
+                ctx.fail(st, 'no_raise', 'raises %s' % lib.exc_desc(r), info, replay=rp)
+                continue
+            me, others, res, as_vals = r
+
+            def axes(t):
+                """per-axis source records of an object tuple as built by mk_*"""
+                if kind == 'IntervalProd':
+                    return [('iv', lo, hi) for lo, hi in zip(t[1], t[2])]
+                if kind == 'RectGrid':
+                    return [('g', v) for v in t[1]]
+                return [('p', lo, hi, v) for lo, hi, v in zip(t[1], t[2], t[3])]
+            src = axes(me)
+            want = src[:pos] + [a for o in others for a in axes(o)] + src[pos:]
+            ok = isinstance(res, ip.Obj) and res.cls.name == kind
+            ctx.prove(st, 'returns a new %s' % kind, ok and res is not me[0], dict(info, got=repr(res)), replay=rp)
+            if not ok:
+                continue
+            if kind == 'RectPartition':
+                iv, g = res.fields.get('_RectPartition__set'), res.fields.get('_RectPartition__grid')
+            else:
+                iv = g = res
+            got_lo = as_vals(iv.fields['_IntervalProd__min_pt']) if kind != 'RectGrid' else None
+            got_hi = as_vals(iv.fields['_IntervalProd__max_pt']) if kind != 'RectGrid' else None
+            got_v = list(g.fields['_RectGrid__coord_vectors']) if kind != 'IntervalProd' else None
+            n = len(want)
+            ctx.prove(st, 'number of axes == sum of the numbers of axes', all(x is None or len(x) == n for x in (got_lo, got_hi, got_v)), dict(info, want=n), replay=rp)
+            if not all(x is None or len(x) == n for x in (got_lo, got_hi, got_v)):
+                continue
+            low = st.lower
+            for a, w in enumerate(want):
+                if kind != 'RectGrid':
+                    ctx.prove(st, 'axis %d: end points of the expected source axis' % a, core.s_and(core.sc_eq(core._sc(got_lo[a]), w[1]), core.sc_eq(core._sc(got_hi[a]), w[2])), info, replay=rp)
+                if kind != 'IntervalProd':
+                    ctx.prove(st, 'axis %d: coordinate vector of the expected source axis' % a, got_v[a] is w[-1], dict(info, got=repr(got_v[a]), want=repr(w[-1])), replay=rp)
+    return Unit('subpart/%s-%s/n=%d/ins=%s/idx=%s' % (kind, meth, nself, '+'.join(map(str, ins)) or 'none', index if meth == 'insert' else 'end'), run,
+                funcs=[{'IntervalProd': DOM, 'RectGrid': GR, 'RectPartition': PT}[kind] + kind + '.' + meth] +
+                ([DOM + 'IntervalProd.insert', GR + 'RectGrid.insert', PT + 'RectPartition.insert'] if kind == 'RectPartition' else []),
+                config={'class': kind, 'ndim': nself, 'inserted_ndims': list(ins), 'index': index, 'method': meth})
+
+
+def unit_subpart_native():
+    """BOUNDED (never counted as proved): slices, index lists, byaxis and squeeze of the partitions of the native pool - the cells of the
+    sub-partition are cells of the parent (boundaries taken from the parent's boundaries), its nodes are the selected nodes, and the tiling
+    invariants hold for it."""
+    def run(ctx):
+        from contracts import replay_c14
+        odl, np = replay_c14._odl()
+        for case, bad in replay_c14.subpartition_cases(odl, np):
+            ctx.bounded('sub-partition consistent with its parent', not bad, case, detail=bad)
+    return Unit('subpart-native/pool', run, funcs=[PT + 'RectPartition.__getitem__', PT + 'RectPartition.squeeze', PT + 'RectPartition.byaxis', GR + 'RectGrid.__getitem__',
+                                                   DOM + 'IntervalProd.__getitem__'], kind='B', bounded_in='partition pool of contracts/replay_c14.py x 14 index expressions per partition')
+
+
 def units(tier, seed):
     us = [unit_bdry(), unit_sizes(), unit_index(False), unit_index(True), unit_cell_sides(False), unit_cell_sides(True)]
     for missing in (None, 'min_pt', 'max_pt', 'cell_sides'):
@@ -425,6 +580,12 @@ def units(tier, seed):
             us.append(unit_uniform(missing, bl, br))
     for bl, br in itertools.product((False, True), repeat=2):
         us.append(unit_uniform_grid(bl, br))
+    for kind in ('IntervalProd', 'RectGrid', 'RectPartition'):
+        for nself, ins, index in ((2, (1,), 0), (2, (1,), 1), (2, (2,), 2), (2, (1,), -1), (2, (1, 1), 1), (2, (2, 1), 0), (2, (2, 1), 1), (3, (1, 2, 1), 1), (1, (2, 2), -1), (2, (), 1)):
+            us.append(unit_subpart_insert(kind, nself, ins, index))
+        for nself, ins in ((2, (1,)), (1, (2, 1)), (2, (2, 2))):
+            us.append(unit_subpart_insert(kind, nself, ins, None, meth='append'))
+    us.append(unit_subpart_native())
     us.append(unit_canary())
     return us
 
